@@ -160,6 +160,12 @@ fn main() {
             writeln!(out, "{}", res).unwrap();
             continue;
         }
+        if mode == "convert" {
+            let spec: serde_json::Value = serde_json::from_str(&line).unwrap();
+            let res = guarded(move || format!("OK {}", scenario::convert(&spec)));
+            writeln!(out, "{}", res).unwrap();
+            continue;
+        }
         if mode == "render-spec" {
             // input: a JSON tree spec; output: JSON string of its Display rendering
             let spec: serde_json::Value = serde_json::from_str(&line).unwrap();
